@@ -415,6 +415,31 @@ func c06CopyRoutine(p *Prog, r *Report, b *bufInfo) {
 		src := stripTA(st.Val)
 		if c, ok := src.(*ssa.Call); ok && ccIs(c.Common(), "io", "NopCloser") {
 			src = stripTA(c.Common().Args[0])
+		} else {
+			// handed over bare: whoever closes the request body (http.Transport, ReverseProxy do) closes the
+			// buffer, and the next attempt cannot replay it
+			bare := false
+			var chk func(v ssa.Value, d int)
+			chk = func(v ssa.Value, d int) {
+				if d > 4 {
+					return
+				}
+				v = stripTA(v)
+				if v == ssa.Value(bodyParam) {
+					bare = true
+				}
+				if ph, ok := v.(*ssa.Phi); ok {
+					for _, e := range ph.Edges {
+						if c2, ok := stripTA(e).(*ssa.Call); ok && ccIs(c2.Common(), "io", "NopCloser") {
+							continue
+						}
+						chk(e, d+1)
+					}
+				}
+			}
+			chk(src, 0)
+			r.Check(!bare, "C06.R2", cn+": the buffered body is handed down behind io.NopCloser", p.InstrPos(st), "Body = io.NopCloser(body)",
+				"the buffered reader itself becomes the attempt's Body: a handler (or transport) that closes the request body closes the buffer's file, and a retry reads an error or nothing instead of the whole body")
 		}
 		nts := NilTests(fn, func(v ssa.Value) bool { return stripConv(v) == ssa.Value(bodyParam) })
 		if src == ssa.Value(bodyParam) {
@@ -470,6 +495,32 @@ func runC07(p *Prog, r *Report) {
 	}
 	r.Fn(FName(b.serve))
 	c07ExpectBody(p, r, b)
+	// the final attempt's headers reach the client as recorded: apart from the merge the routine does not edit
+	// the client's header map (no Set / Add / Del on w.Header())
+	{
+		var edit ssa.Instruction
+		for _, c := range Calls(b.serve) {
+			o := calleeObj(c.Common())
+			if o == nil || o.Pkg() == nil || o.Pkg().Path() != pkgHTTP {
+				continue
+			}
+			switch objName(o) {
+			case "Header.Set", "Header.Add", "Header.Del":
+			default:
+				continue
+			}
+			if len(c.Common().Args) == 0 {
+				continue
+			}
+			if hc, ok := stripConv(c.Common().Args[0]).(*ssa.Call); ok {
+				if cc, ok := IsInvoke(hc, "Header"); ok && cc.Value == ssa.Value(b.w) {
+					edit = c
+				}
+			}
+		}
+		r.Check(edit == nil, "C07.R2", "buffer.(*Buffer).ServeHTTP: the client's headers are the final attempt's", p.FuncPos(b.serve), "no Set/Add/Del on the client writer's header map",
+			"the routine edits a header of the client response itself"+atInstr(p, edit)+": what the client receives is no longer what the final attempt produced (e.g. the Content-Length of a HEAD or 304 response is overwritten with the buffered size 0)")
+	}
 	sn := "buffer.(*Buffer).ServeHTTP"
 	fn := b.serve
 	inLoop := loopBlocks(b.handler.Block())
@@ -1181,6 +1232,8 @@ func c07FunctionMap(p *Prog, r *Report, funcs map[string]*ssa.Function, pkg stri
 // ---------------- C15 ----------------
 
 func runC15(p *Prog, r *Report) {
+	// R9: no request reaches the handler around the buffer (shared with C20.R1 / C20.R2 for the buffer)
+	r.Borrow(p, runC20, map[string]string{"C20.R1": "C15.R9", "C20.R2": "C15.R9"}, func(o Ob) bool { return strings.Contains(o.Construct, "buffer.") })
 	// R7: the error handler that answers 413 / the error status is non-nil whatever options were given
 	checkErrHandlerDefaulted(p, r, "C15.R7", map[string]bool{"buffer": true})
 	// R8: the limits and memory thresholds are the configured ones
@@ -1675,6 +1728,7 @@ func c15ReaderNeedsOpenFile(p *Prog) bool {
 func mutantsC06() []Mutant {
 	f := "buffer/buffer.go"
 	return []Mutant{
+		{Name: "body-handed-over-bare", File: "buffer/buffer.go", Old: "\t\to.Body = io.NopCloser(body.(io.Reader))\n", New: "\t\to.Body = body\n", Expect: "C06.R2"},
 		{Name: "body-wrapped-after-buffering", File: "buffer/buffer.go", Old: "\t// Set request body to buffered reader", New: "\tbody = struct{ multibuf.MultiReader }{body}\n\t// Set request body to buffered reader", Expect: "C06.R3"},
 		{Name: "copy-from-previous-copy", File: f, Old: "\t\toutReq = b.copyRequest(req, body, totalSize)\n", New: "\t\toutReq = b.copyRequest(outReq, body, totalSize)\n", Expect: "C06.R1"},
 		{Name: "no-seek", File: f, Old: "\t\tif body != nil {\n\t\t\tif _, err := body.Seek(0, 0); err != nil {\n\t\t\t\tb.log.Error(\"vulcand/oxy/buffer: failed to rewind response body, err: %v\", err)\n\t\t\t\tb.errHandler.ServeHTTP(w, req, err)\n\t\t\t\treturn\n\t\t\t}\n\t\t}\n", New: "", Expect: "C06.R3"},
@@ -1694,6 +1748,7 @@ func mutantsC06() []Mutant {
 func mutantsC07() []Mutant {
 	f, t := "buffer/buffer.go", "buffer/threshold.go"
 	return []Mutant{
+		{Name: "content-length-rewritten-on-relay", File: "buffer/buffer.go", Old: "\t\t\tutils.CopyHeaders(w.Header(), bw.Header())\n", New: "\t\t\tutils.CopyHeaders(w.Header(), bw.Header())\n\t\t\tif w.Header().Get(\"Content-Length\") != \"\" && reader == nil {\n\t\t\t\tw.Header().Set(\"Content-Length\", \"0\")\n\t\t\t}\n", Expect: "C07.R2"},
 		{Name: "retry-abandoned-when-context-done", File: "buffer/buffer.go", Old: "\t\tattempt++\n", New: "\t\tattempt++\n\t\tif req.Context().Err() != nil {\n\t\t\tb.errHandler.ServeHTTP(w, req, req.Context().Err())\n\t\t\treturn\n\t\t}\n", Expect: "C07.R5"},
 		{Name: "expectbody-205-for-204", File: "buffer/buffer.go", Old: "b.code == 204", New: "b.code == 205", Expect: "C07.R4"},
 		{Name: "bound-100", File: f, Old: "\tDefaultMaxRetryAttempts = 10\n", New: "\tDefaultMaxRetryAttempts = 100\n", Expect: "C07.R5"},
@@ -2249,4 +2304,88 @@ func c07ExpectBody(p *Prog, r *Report, b *bufInfo) {
 	r.Paths += 500
 	r.Check(len(wrong) == 0, "C07.R4", "buffer.(*bufferWriter)."+fn.Name()+": bodiless statuses are exactly 1xx, 204, 304", p.FuncPos(fn), "decided for every status 100..599 from the function's comparisons",
 		"the body test disagrees with the protocol: "+truncate(strings.Join(wrong, "; "), 160)+" — the final attempt's body is dropped for such a status (or a body is announced that the handler never wrote)")
+}
+
+// boolReturnsDecide: the constant results a bool function can return when `decide` fixes the branch
+// conditions it knows (resolved through phis along the path) and every other branch may go either way.
+func boolReturnsDecide(p *Prog, fn *ssa.Function, decide func(cond ssa.Value) (val, ok bool)) (canTrue, canFalse bool) {
+	seen := map[[2]int]bool{}
+	var walk func(b, prev *ssa.BasicBlock, depth int)
+	resolve := func(v ssa.Value, b, prev *ssa.BasicBlock) (ssa.Value, bool) {
+		neg := false
+		for i := 0; i < 4; i++ {
+			c2, pos := condStrip(v)
+			if !pos {
+				neg = !neg
+			}
+			v = c2
+			ph, isPhi := v.(*ssa.Phi)
+			if !isPhi || ph.Block() != b || prev == nil {
+				break
+			}
+			for j, pr := range b.Preds {
+				if pr == prev {
+					v = ph.Edges[j]
+				}
+			}
+		}
+		return v, neg
+	}
+	walk = func(b, prev *ssa.BasicBlock, depth int) {
+		pi := -1
+		if prev != nil {
+			pi = prev.Index
+		}
+		if depth > 200 || seen[[2]int{b.Index, pi}] {
+			return
+		}
+		seen[[2]int{b.Index, pi}] = true
+		switch t := b.Instrs[len(b.Instrs)-1].(type) {
+		case *ssa.Return:
+			rv, neg := resolve(t.Results[0], b, prev)
+			if k, ok := constBool(rv); ok {
+				if k != neg {
+					canTrue = true
+				} else {
+					canFalse = true
+				}
+				return
+			}
+			if val, ok := decide(rv); ok {
+				if val != neg {
+					canTrue = true
+				} else {
+					canFalse = true
+				}
+				return
+			}
+			canTrue, canFalse = true, true
+		case *ssa.If:
+			cv, neg := resolve(t.Cond, b, prev)
+			if k, isC := constBool(cv); isC {
+				if k != neg {
+					walk(b.Succs[0], b, depth+1)
+				} else {
+					walk(b.Succs[1], b, depth+1)
+				}
+				return
+			}
+			if val, ok := decide(cv); ok {
+				if val != neg {
+					walk(b.Succs[0], b, depth+1)
+				} else {
+					walk(b.Succs[1], b, depth+1)
+				}
+				return
+			}
+			walk(b.Succs[0], b, depth+1)
+			walk(b.Succs[1], b, depth+1)
+		case *ssa.Jump:
+			walk(b.Succs[0], b, depth+1)
+		}
+	}
+	if len(fn.Blocks) > 0 {
+		walk(fn.Blocks[0], nil, 0)
+	}
+	return
 }
